@@ -11,7 +11,7 @@ ENGINE = "progspace"
 TECHNIQUE = ("bounded exhaustive exploration: every node binary / edit pair of the program space run under every member of a fixed set of 10 execution policies (ASLR on/off, MALLOC_PERTURB_, working directory, and an interposed allocator "
              "with ascending, descending, striped and padded placement at different arena bases, which reverses or scrambles the address order of heap objects deterministically); oracle = byte-identical stdout and equal exit status across all policies")
 RULE = ("policies: P0 default; P1 setarch -R (no ASLR); P2 MALLOC_PERTURB_=85; P3 MALLOC_PERTURB_=170 with cwd=/; P4..P7 LD_PRELOAD harness/alloc_shim.c in modes up, down, stripe, pad; P8 down at arena base 0x300000000000; P9 stripe at base 0x100000000000. "
-        "Runs: per node binary abidw {default, --load-all-types --annotate}; per breaking-edit pack pair abidiff {default, --leaf-changes-only --impacted-interfaces} both directions; per package pair abipkgdiff (parallel) on 3-library directories. "
+        "Runs: two programs in which many types share one source position (template instantiations; structs, enums and typedefs from one macro expansion) and every node binary: abidw {default, --load-all-types --annotate}; per breaking-edit pack pair abidiff {default, --leaf-changes-only --impacted-interfaces} both directions; per package pair abipkgdiff (parallel) on 3-library directories. "
         "Oracle: (exit status, stdout) identical for all 10 policies; the shim must report a non-zero number of bytes served (it is live). Non-trivial: every (run, policy).")
 TEXT = "All node binaries and pack pairs of the tier x 10 policies."
 NOTE = ("ASLR itself cannot be enumerated; the interposed allocator makes heap address order a controlled input instead (descending / striped placement inverts the order pointer-keyed containers would see), and the ASLR policies are kept as extra members of the set.")
@@ -20,6 +20,25 @@ POLICIES = [("P0-default", {}, None, None), ("P1-noaslr", {}, None, ["setarch", 
             ("P4-shim-up", {"VF_ALLOC_MODE": "up"}, None, None), ("P5-shim-down", {"VF_ALLOC_MODE": "down"}, None, None), ("P6-shim-stripe", {"VF_ALLOC_MODE": "stripe"}, None, None),
             ("P7-shim-pad", {"VF_ALLOC_MODE": "pad"}, None, None), ("P8-shim-down-base3", {"VF_ALLOC_MODE": "down", "VF_ALLOC_BASE": "300000000000"}, None, None),
             ("P9-shim-stripe-base1", {"VF_ALLOC_MODE": "stripe", "VF_ALLOC_BASE": "100000000000"}, None, None)]
+
+
+# programs in which several types share one source position (file, line, column): any order that is only decided by the
+# position leaves them to the iteration order of pointer-keyed containers
+TIES = {
+    "templates.cc": r'''
+template <typename T> struct Box { T v; T get() const { return v; } };
+template <typename T, int N> struct Arr { T a[N]; };
+Box<int> b1; Box<long> b2; Box<char> b3; Box<double> b4; Box<Box<int> > b5; Box<short*> b6;
+Arr<int, 2> a1; Arr<int, 3> a2; Arr<char, 2> a3; Arr<Box<int>, 2> a4;
+int use(Box<int>* p, Arr<char, 2>* q) { return p->get() + q->a[0]; }
+''',
+    "macro.c": r'''
+#define THREE(A, B, C) struct A { int x; }; struct B { long y; char c; }; struct C { struct A* pa; struct B* pb; }; enum A##_e { A##_0 }; typedef struct B B##_t;
+THREE(alpha, beta, gamma) THREE(delta, epsilon, zeta)
+struct alpha va; struct beta vb; struct gamma vc; struct delta vd; struct epsilon ve; struct zeta vz; enum alpha_e e1; enum delta_e e2; beta_t t1; epsilon_t t2;
+int f(struct gamma* g, struct zeta* z) { return g->pa->x + (int)z->pb->y; }
+''',
+}
 
 
 def _build_shim():
@@ -45,11 +64,12 @@ def prepare(ctx):
 def stages(ctx):
     nodes = pc.node_binary_specs(ctx.quick)
     if ctx.quick:
-        nodes = nodes[::2]
+        # every seed program, every other catalogue pack
+        nodes = [b for i, b in enumerate(nodes) if "seed" in b or i % 2 == 0]
     packs = pc.mixed_packs(ctx.quick)
     if ctx.quick:
         packs = packs[::4]
-    el = [{"kind": "node", "b": b} for b in nodes] + [{"kind": "pair", "pack": p} for p in packs] + [{"kind": "pkg", "seeds": ["basic", "nested", "recursive"]}, {"kind": "pkg", "seeds": ["cxx", "two_tu", "symbols"]}]
+    el = [{"kind": "ties", "name": n} for n in TIES] + [{"kind": "node", "b": b} for b in nodes] + [{"kind": "pair", "pack": p} for p in packs] + [{"kind": "pkg", "seeds": ["basic", "nested", "recursive"]}, {"kind": "pkg", "seeds": ["cxx", "two_tu", "symbols"]}]
     return [("runs-x-10-policies", el)]
 
 
@@ -67,7 +87,12 @@ def _run(ctx, tool, args, pol, report):
 def evaluate(ctx, e):
     d = ctx.tmpdir("c14")
     runs = []
-    if e["kind"] == "node":
+    if e["kind"] == "ties":
+        from .. import cbuild
+        path = cbuild.compile_units([(e["name"], TIES[e["name"]], ["-g"] + (["-std=c++11"] if e["name"].endswith(".cc") else []))], link_flags=["-Wl,-soname,libties.so"], out_name="libties.so", tag="c14")
+        desc = "ties:" + e["name"]
+        runs = [("abidw", ["--no-corpus-path", path]), ("abidw", ["--load-all-types", "--annotate", path]), ("abidiff", [path, path])]
+    elif e["kind"] == "node":
         path = pc.node_binary(e["b"])
         desc = e["b"]["id"]
         runs = [("abidw", ["--no-corpus-path", path]), ("abidw", ["--load-all-types", "--annotate", path])]
